@@ -88,6 +88,12 @@ def run(ctx):
     ctx.rule("R2", "call plumbing: validators are guarded by success of their sub-validators with the right arguments; loops cover the whole collection")
     ctx.rule("R3", "one mutation per key per solution: duplicate test on the mutation's key against a set that spans the solution's mutations")
     ctx.rule("R4", "the mutation-computing check tests computed keys against the declared ones before appending")
+    # check_signed_contract accepts only contracts whose signature is recoverable: the conditions under which
+    # essential-sign treats a signature as well-formed (C19 R2/R3) are part of that validator
+    from . import C19
+    ctx.rule("R5", "signed contracts: a malformed signature (bytes or recovery id out of range) is an error and verification precedes acceptance (C19 R2/R3)")
+    C19.run(C19._Only(ctx, "R2", "R5"))
+    C19.run(C19._Only(ctx, "R3", "R5"))
     fns = [f for f in prog.fns_by_crate["essential_check"] if f.kind != "Const"]
     found = {l[0]: 0 for l in LIMITS}
     for fn in fns:
